@@ -72,6 +72,11 @@ func VxC11_Exact() {
 	vx.Assume(c < 1)
 	res := QuantileCI(n, q, c)
 	vxCheckExact(n, q, c, res)
+	// c >= 1: the whole range with Confidence 1 (every level at or above 1)
+	c1 := vx.Float("cfull")
+	vx.Assume(c1 >= 1)
+	full := QuantileCI(n, q, c1)
+	vx.Assert(full.LoOrder == 0 && full.HiOrder == n+1 && full.Confidence == 1 && !full.Ambiguous && full.N == n && full.Quantile == q, "c >= 1 gives the whole range with Confidence 1")
 	if n <= 8+4*vx.Tier() {
 		c2 := vx.Float("c2")
 		vx.Assume(vx.And(c <= c2, c2 < 1))
@@ -84,6 +89,7 @@ func VxC11_Exact() {
 //
 //vx:mode FP
 //vx:solver cvc5
+//vx:budget 90
 //vx:bound n any int in [1, 2^31); q any float64; c any float64 >= 1
 func VxC11_Full() {
 	n := vx.Int("n")
